@@ -555,6 +555,27 @@ func init() {
 					c.Services = append(c.Services, Service{Name: "g3", Constructor: P("pk.New"), Getter: P("Must 1 InContext")})
 				}, [][]string{{`"g3"`, `prefix "Must"`}, {`"g3"`, `suffix "InContext"`}, {`"g3"`, "getter: invalid"}}},
 				{"import-alias-and-path", func(c *Cfg) { c.Meta.Imports = append(c.Meta.Imports, KV{"1al", "/bad"}) }, [][]string{{"imports", `invalid import "/bad"`}, {"imports", `invalid alias "1al"`}}},
+				{"duplicate-getter-next-to-other-violations", func(c *Cfg) {
+					c.Services = append(c.Services,
+						Service{Name: "shareA", Constructor: P("pk.New"), Getter: P("GetShared"), Calls: []Call{{Method: "not ok", Args: []any{}}}},
+						Service{Name: "shareB", Constructor: P("pk.New"), Getter: P("GetShared"), Tags: []Tag{{Name: "bad tag"}}},
+						Service{Name: "shareC", Constructor: P("pk.New"), Getter: P("GetShared")})
+				}, [][]string{{"GetShared", `"shareA"`, `"shareB"`, `"shareC"`}, {`"shareA"`, "calls"}, {`"shareB"`, "tags"}}},
+				{"one-text-in-two-roles-invalid-second", func(c *Cfg) {
+					// "set-up" is a fine tag and service name, and no method, field or getter
+					c.Services = append(c.Services,
+						Service{Name: "aaFirst", Constructor: P("pk.New"), Tags: []Tag{{Name: "set-up"}, {Name: "audit.log", Priority: P(1)}}},
+						Service{Name: "set-up", Constructor: P("pk.New"), Calls: []Call{{Method: "set-up", Args: []any{}}}, Fields: []KV{{"audit.log", 1}}, Getter: P("set-up")})
+					c.Decorators = append(c.Decorators, Decorator{Tag: "set-up", Decorator: "pk.Dec1"})
+				}, [][]string{{`"set-up"`, "calls", "method"}, {`"set-up"`, "fields", `"audit.log"`}, {`"set-up"`, "getter"}}},
+				{"one-text-in-two-roles-invalid-first", func(c *Cfg) {
+					// "audit.log" is no getter, but a fine tag (service and decorator): exactly one diagnostic
+					c.Services = append(c.Services,
+						Service{Name: "aaBad", Constructor: P("pk.New"), Getter: P("audit.log")},
+						Service{Name: "later", Constructor: P("pk.New"), Tags: []Tag{{Name: "audit.log"}}},
+						Service{Name: "audit.log", Constructor: P("pk.New")})
+					c.Decorators = append(c.Decorators, Decorator{Tag: "audit.log", Decorator: "pk.Dec1"})
+				}, [][]string{{`"aaBad"`, "getter"}, {"=1"}}},
 				{"function-name-and-target", func(c *Cfg) { c.Meta.Functions = append(c.Meta.Functions, KV{"f-n", "pk."}) }, [][]string{{"functions", `invalid function "f-n"`}, {"functions", `invalid go function "pk."`}}},
 				{"decorator-all", func(c *Cfg) {
 					c.Decorators = append(c.Decorators, Decorator{Tag: "bad tag", Decorator: "1x", Args: []any{Raw("[1]"), Raw("{}")}})
@@ -575,6 +596,13 @@ func init() {
 					}
 					lines := ErrorLines(br.Out)
 					for _, names := range sm.names {
+						if len(names) == 1 && strings.HasPrefix(names[0], "=") {
+							// exactly that many diagnostics: nothing that is valid is reported next to the defects
+							if want := names[0][1:]; fmt.Sprint(len(lines)) != want {
+								c.Violation("spurious-diagnostic:same-entity:"+sm.id, fmt.Sprintf("expected exactly %s diagnostic(s):\n%s", want, strings.Join(lines, "\n")), FilesMap(files), nil)
+							}
+							continue
+						}
 						found := false
 						for _, l := range lines {
 							all := true
